@@ -149,6 +149,10 @@ pub struct Checker {
     pub max_depth: usize,
     // statistics
     pub steps: u64,
+    // model of finding F-ANNOT: leave the annotations of definitions unchecked
+    pub skip_definition_annotations: bool,
+    // part of the model of finding F-HOLE-COPY: an unresolved hole converts with anything
+    pub holes_are_wildcards: bool,
 }
 
 fn unknown() -> V {
@@ -157,7 +161,7 @@ fn unknown() -> V {
 
 impl Checker {
     pub fn new(fuel: u64) -> Checker {
-        Checker { fuel, exhausted: false, depth: 0, max_depth: 2500, steps: 0 }
+        Checker { fuel, exhausted: false, depth: 0, max_depth: 2500, steps: 0, skip_definition_annotations: false, holes_are_wildcards: false }
     }
 
     fn tick(&mut self) -> bool {
@@ -208,7 +212,9 @@ impl Checker {
 
     fn eval_inner(&mut self, env: &Env, t: &M) -> V {
         match t {
-            M::Hole(c, s) => V::N(Rc::new(Neutral::Hole(*c, *s))),
+            // An unresolved hole stands for an unknown term that lives `shift` binders further out; two
+            // occurrences denote the same unknown when the cell and that home depth coincide.
+            M::Hole(c, s) => V::N(Rc::new(Neutral::Hole(*c, env.len().saturating_sub(*s)))),
             M::Type => V::Type,
             M::Int => V::Int,
             M::Bool => V::Bool,
@@ -349,6 +355,12 @@ impl Checker {
     }
 
     fn conv_inner(&mut self, level: usize, a: &V, b: &V) -> bool {
+        if self.holes_are_wildcards {
+            let is_hole = |v: &V| matches!(v, V::N(n) if matches!(**n, Neutral::Hole(..)));
+            if is_hole(a) || is_hole(b) {
+                return true;
+            }
+        }
         match (a, b) {
             (V::Type, V::Type) | (V::Int, V::Int) | (V::Bool, V::Bool) | (V::True, V::True) | (V::False, V::False) => true,
             (V::Lit(x), V::Lit(y)) => x == y,
@@ -482,13 +494,19 @@ impl Checker {
                         self.instantiate(&cod, delay(&ctx.env, a))
                     }
                     V::Pi(true, ..) => return Err(TypeError::ImplicitApplication(f.show())),
+                    V::N(ref n) if self.holes_are_wildcards && matches!(**n, Neutral::Hole(..)) => {
+                        self.infer(ctx, a)?;
+                        V::N(Rc::new(Neutral::Hole(usize::MAX - 1, 0)))
+                    }
                     _ => return Err(if self.exhausted { TypeError::Unknown } else { TypeError::NotAFunction(f.show()) }),
                 }
             }
             M::Let(ds, body) => {
                 let c = self.bind_group(ctx, ds);
-                for (_, a, _) in ds {
-                    self.is_type(&c, a, "definition annotation")?;
+                if !self.skip_definition_annotations {
+                    for (_, a, _) in ds {
+                        self.is_type(&c, a, "definition annotation")?;
+                    }
                 }
                 for (i, (_, _, d)) in ds.iter().enumerate() {
                     let want_th = c.types.get(ds.len() - 1 - i).unwrap();
